@@ -372,7 +372,7 @@ func cmdCheck(args []string) int {
 					why += "; replay: " + note
 				}
 				violate(o.Name, why, "no-failing-input-found", o, vc)
-			case inBaseModuloOrdinal(inBase, o.Name) && (o.Kind == "post" || o.Kind == "pre" || o.Kind == "token" || strings.HasPrefix(o.Kind, "loop-")):
+			case inBaseModuloOrdinal(inBase, o.Name) && (o.Kind == "post" || o.Kind == "pre" || o.Kind == "callpre" || o.Kind == "token" || strings.HasPrefix(o.Kind, "loop-")):
 				// the same contract clause of the same function (another return, call site or path:
 				// only the ordinal differs) discharged on the committed baseline and does not here
 				r.Status = "violated-" + o.Result + "-new-instance"
